@@ -7,14 +7,20 @@
 
 #include "detsim.h"
 
+#include <atomic>
 namespace {
 template <class F>
-F real(const char* name) {
-    void* p = dlsym(RTLD_NEXT, name);
-    if (!p) _exit(13);
+F resolve(std::atomic<void*>& slot, const char* name) {  // no guarded function-local statics in seam code (see detsim.cpp)
+    void* p = slot.load(std::memory_order_acquire);
+    if (!p) {
+        p = dlsym(RTLD_NEXT, name);
+        if (!p) _exit(13);
+        slot.store(p, std::memory_order_release);
+    }
     return reinterpret_cast<F>(p);
 }
 }  // namespace
+#define REALFN(type, name) ([]() -> type { static std::atomic<void*> slot{nullptr}; return resolve<type>(slot, name); }())
 
 typedef char a8;
 typedef short a16;
@@ -24,27 +30,27 @@ typedef int morder;
 
 #define ATOMIC_FUNCS(N)                                                                                                     \
     extern "C" a##N __tsan_atomic##N##_load(const volatile a##N* a, morder mo) {                                             \
-        static auto r = real<a##N (*)(const volatile a##N*, morder)>("__tsan_atomic" #N "_load");                           \
+        auto r = REALFN(a##N (*)(const volatile a##N*, morder), "__tsan_atomic" #N "_load");                           \
         sim::atomic_point();                                                                                                \
         return r(a, mo);                                                                                                    \
     }                                                                                                                       \
     extern "C" void __tsan_atomic##N##_store(volatile a##N* a, a##N v, morder mo) {                                          \
-        static auto r = real<void (*)(volatile a##N*, a##N, morder)>("__tsan_atomic" #N "_store");                          \
+        auto r = REALFN(void (*)(volatile a##N*, a##N, morder), "__tsan_atomic" #N "_store");                          \
         sim::atomic_point();                                                                                                \
         r(a, v, mo);                                                                                                        \
     }                                                                                                                       \
     extern "C" int __tsan_atomic##N##_compare_exchange_strong(volatile a##N* a, a##N* c, a##N v, morder mo, morder fmo) {    \
-        static auto r = real<int (*)(volatile a##N*, a##N*, a##N, morder, morder)>("__tsan_atomic" #N "_compare_exchange_strong"); \
+        auto r = REALFN(int (*)(volatile a##N*, a##N*, a##N, morder, morder), "__tsan_atomic" #N "_compare_exchange_strong"); \
         sim::atomic_point();                                                                                                \
         return r(a, c, v, mo, fmo);                                                                                         \
     }                                                                                                                       \
     extern "C" int __tsan_atomic##N##_compare_exchange_weak(volatile a##N* a, a##N* c, a##N v, morder mo, morder fmo) {      \
-        static auto r = real<int (*)(volatile a##N*, a##N*, a##N, morder, morder)>("__tsan_atomic" #N "_compare_exchange_weak"); \
+        auto r = REALFN(int (*)(volatile a##N*, a##N*, a##N, morder, morder), "__tsan_atomic" #N "_compare_exchange_weak"); \
         sim::atomic_point();                                                                                                \
         return r(a, c, v, mo, fmo);                                                                                         \
     }                                                                                                                       \
     extern "C" a##N __tsan_atomic##N##_compare_exchange_val(volatile a##N* a, a##N c, a##N v, morder mo, morder fmo) {       \
-        static auto r = real<a##N (*)(volatile a##N*, a##N, a##N, morder, morder)>("__tsan_atomic" #N "_compare_exchange_val"); \
+        auto r = REALFN(a##N (*)(volatile a##N*, a##N, a##N, morder, morder), "__tsan_atomic" #N "_compare_exchange_val"); \
         sim::atomic_point();                                                                                                \
         return r(a, c, v, mo, fmo);                                                                                         \
     }                                                                                                                       \
@@ -53,7 +59,7 @@ typedef int morder;
 
 #define ATOMIC_RMW(N, op)                                                                                   \
     extern "C" a##N __tsan_atomic##N##_##op(volatile a##N* a, a##N v, morder mo) {                           \
-        static auto r = real<a##N (*)(volatile a##N*, a##N, morder)>("__tsan_atomic" #N "_" #op);           \
+        auto r = REALFN(a##N (*)(volatile a##N*, a##N, morder), "__tsan_atomic" #N "_" #op);           \
         sim::atomic_point();                                                                                \
         return r(a, v, mo);                                                                                 \
     }
@@ -64,7 +70,7 @@ ATOMIC_FUNCS(32)
 ATOMIC_FUNCS(64)
 
 extern "C" void __tsan_atomic_thread_fence(morder mo) {
-    static auto r = real<void (*)(morder)>("__tsan_atomic_thread_fence");
+    auto r = REALFN(void (*)(morder), "__tsan_atomic_thread_fence");
     sim::atomic_point();
     r(mo);
 }
